@@ -15,6 +15,7 @@ from the property text, independently of the model's table:
                still-connected sender for that name was left without a fate
   overreach    a process failure answered callers of a name whose own process did not fail
   respawn      a process was started for a name whose activation was still open
+  request-failed           a RequestName was answered with an error (the service cannot take its name: held messages stay undelivered)
   driver-call-unanswered   RequestName / ReleaseName / ReloadConfig of a connected caller got no answer in its step
   delivered-after-error / never (covered by twice)
 Returns a list of (kind, detail)."""
@@ -45,9 +46,9 @@ def run_oracle(services, events, toks):
         k = p[0]
         parts = [] if tok in ("-", "~") else [t for t in tok.split("+") if t and t not in ("-", "~")]
         new_call = None
-        if k in ("C", "K"):
+        if k in ("C", "K", "CF", "KF"):
             live.add(nconn)
-            if k == "K":
+            if k in ("K", "KF"):
                 conn_of_sid[int(p[1])] = nconn
             nconn += 1
         elif k in ("A", "B", "U", "S"):
@@ -113,6 +114,13 @@ def run_oracle(services, events, toks):
             c, serial = int(p[1]), int(p[2])
             if not any(t.startswith("%d:d.%d." % (c, serial)) or t.startswith("%d:e.%d." % (c, serial)) for t in parts):
                 verdicts.append(("driver-call-unanswered", "%s by %d (serial %d) got neither a reply nor an error" % (ev, c, serial)))
+        # ---- taking a name never fails in these histories (own="*", no queues): an error means the held messages stay undelivered
+        if k == "R" and int(p[1]) in live:
+            c, serial = int(p[1]), int(p[2])
+            bad = [t for t in parts if t.startswith("%d:e.%d." % (c, serial))]
+            if bad:
+                verdicts.append(("request-failed", "RequestName(w%s) by %d was answered with %s; waiting for the name: %s" % (
+                    p[3], c, bad[0].split(".", 2)[2], [(w["conn"], w["serial"]) for w in waiting("w" + p[3])])))
         # ---- closings
         if k == "R":
             c, serial, name = int(p[1]), int(p[2]), "w" + p[3]
@@ -126,7 +134,7 @@ def run_oracle(services, events, toks):
             c, serial, name = int(p[1]), int(p[2]), "w" + p[3]
             if any(t == "%d:d.%d.1" % (c, serial) for t in parts):
                 owner.pop(name, None)
-        elif k in ("C", "K"):
+        elif k in ("C", "K", "CF", "KF"):
             name = "u%d" % (nconn - 1)
             left = waiting(name)
             if left or name in open_act:
